@@ -296,8 +296,27 @@ func translateLS(held lockSet, ci ssa.CallInstruction, callee *ssa.Function) loc
 				out[np] = ent
 			}
 		}
-		if strings.HasPrefix(path, "global:") {
+		if strings.HasPrefix(path, "global:") || strings.HasPrefix(path, "owner:") {
 			out[path] = ent
+			continue
+		}
+		// a lock of an object the callee cannot name (the NAT's mutex while a method of one of its mappings
+		// runs): kept as "a mutex of that type is held", which is what the owner rule asks for
+		translated := false
+		for i, a := range args {
+			if i >= len(callee.Params) {
+				break
+			}
+			ap := accessPath(a)
+			if path == ap || strings.HasPrefix(path, ap+".") {
+				translated = true
+			}
+		}
+		if !translated && ent.Owner != "" {
+			k := "owner:" + ent.Owner + "." + ent.Field
+			if old, had := out[k]; !had || (old.Mode == 'R' && ent.Mode == 'W') {
+				out[k] = ent
+			}
 		}
 	}
 	return out
